@@ -157,9 +157,37 @@ func (am *AppMapper) mapEndpoints(appName string, ep map[string]*sysl.Endpoint) 
 	return endpoints
 }
 
+// ReturnStatements lists the return statements of an endpoint in source order, including those nested in
+// if / else, loops, for-each, one-of alternatives and groups: every one of them is a response of the endpoint.
+func ReturnStatements(stmts []*sysl.Statement) []*sysl.Statement {
+	var rets []*sysl.Statement
+	for _, stmt := range stmts {
+		switch s := stmt.GetStmt().(type) {
+		case *sysl.Statement_Ret:
+			rets = append(rets, stmt)
+		case *sysl.Statement_Cond:
+			rets = append(rets, ReturnStatements(s.Cond.GetStmt())...)
+		case *sysl.Statement_Loop:
+			rets = append(rets, ReturnStatements(s.Loop.GetStmt())...)
+		case *sysl.Statement_LoopN:
+			rets = append(rets, ReturnStatements(s.LoopN.GetStmt())...)
+		case *sysl.Statement_Foreach:
+			rets = append(rets, ReturnStatements(s.Foreach.GetStmt())...)
+		case *sysl.Statement_Alt:
+			for _, choice := range s.Alt.GetChoice() {
+				rets = append(rets, ReturnStatements(choice.GetStmt())...)
+			}
+		case *sysl.Statement_Group:
+			rets = append(rets, ReturnStatements(s.Group.GetStmt())...)
+		}
+	}
+	return rets
+}
+
 // Parses return statements and builds response parameters
-func (am *AppMapper) mapResponse(stmt []*sysl.Statement, appName string) map[string]*Parameter {
+func (am *AppMapper) mapResponse(stmts []*sysl.Statement, appName string) map[string]*Parameter {
 	responseTypes := make(map[string]*Parameter, 15)
+	stmt := ReturnStatements(stmts)
 	for i := range stmt {
 		var returnType *Type
 		var returnName string
